@@ -110,7 +110,11 @@ Inductive obs :=
 Inductive outcome :=
 | OReturn                     (* run_application returns normally *)
 | OExit (z : Z)               (* SystemExit(z) *)
-| ORaised (x : exn).          (* the exception comes out of run_application *)
+| ORaised (x : exn)           (* the exception comes out of run_application *)
+| ORaisedTd (ids : list nat) (crash : option nat).
+                              (* teardown callbacks raised: one group holding exactly their exceptions (in the
+                                 order in which they ran) comes out instead -- together with the crash of a
+                                 service task if that is what ended the application *)
 
 (* run_application: `if exit_code := anyio.run(...): sys.exit(exit_code)` *)
 Definition exit_of (z : Z) : outcome :=
@@ -156,3 +160,23 @@ Definition finish (cli : bool) (s : st) : option (list obs * outcome) :=
   end.
 
 Definition app (cli : bool) (h : list ev) : option (list obs * outcome) := finish cli (run h).
+
+(* ---------- teardown callbacks that raise ---------- *)
+(* `raisers`: the ids of the callbacks (registered before or during the teardown) that raise an Exception when
+   they are called.  Nothing changes for the teardown itself -- every callback is still invoked, in the same
+   order, with the same argument --; what changes is how run_application ends: the root context's exit raises
+   one group of what the callbacks raised, and that, not the status, is what comes out. *)
+Definition ran (o : list obs) : list nat := flat_map (fun x => match x with Td id _ => [id] | _ => [] end) o.
+Definition raised_by (raisers : list nat) (o : list obs) : list nat :=
+  filter (fun id => existsb (Nat.eqb id) raisers) (ran o).
+Definition finish_r (cli : bool) (raisers : list nat) (s : st) : option (list obs * outcome) :=
+  match finish cli s with
+  | None => None
+  | Some (o, out) =>
+      Some (o, match raised_by raisers o with
+               | [] => out
+               | r => ORaisedTd r (match out with ORaised (XCrash sid) => Some sid | _ => None end)
+               end)
+  end.
+Definition app_r (cli : bool) (raisers : list nat) (h : list ev) : option (list obs * outcome) :=
+  finish_r cli raisers (run h).
